@@ -81,7 +81,18 @@ AddCheckSumTags(e) ==
      ELSE IF ok /\ e.res.out # Append(e.content, 48 + CB!CheckDigit25([i \in 1..Len(e.content) |-> e.content[i] - 48])) THEN <<"checkdigit">>
      ELSE <<>>
 
-Tags(e) == IF Known(e) THEN EncodeTags(e) ELSE IF e.op = "addchecksum" THEN AddCheckSumTags(e) ELSE <<"unknown-event">>
+\* compact acceptance table of EAN-8 (exhaustive sweeps): entry k describes the 7-digit prefix a[1] + k - 1
+SweepTags(e) ==
+  LET start == e.a[1]
+      n == e.a[2]
+      chk(p) == EAN!Check([i \in 1..7 |-> (p \div (10 ^ (7 - i))) % 10])
+  IN IF e.res.kind # "ok" THEN <<"outcome-" \o e.res.kind>>
+     ELSE IF Len(e.res.app) # n \/ Len(e.res.mask) # n THEN <<"sweep-shape">>
+     ELSE (IF \E k \in 1..n : e.res.app[k] # chk(start + k - 1) THEN <<"sweep-check-digit">> ELSE <<>>)
+          \o (IF \E k \in 1..n : e.res.mask[k] # 2 ^ chk(start + k - 1) THEN <<"sweep-acceptance">> ELSE <<>>)
+
+Tags(e) == IF Known(e) THEN EncodeTags(e) ELSE IF e.op = "addchecksum" THEN AddCheckSumTags(e)
+           ELSE IF e.op = "eansweep" THEN SweepTags(e) ELSE <<"unknown-event">>
 
 Step ==
   /\ l <= N
